@@ -37,6 +37,9 @@ func (g *obGen) build(emphasis string) {
 		if queryInboxes {
 			in = fmt.Sprintf("https://%s/inbox.php?user=p%d", hostR, i)
 		}
+		if r.Intn(12) == 0 {
+			in = g.st.Alice.Inbox // an endpoint shared with the (usual) sender: the sender's own inbox never receives its own post
+		}
 		if r.Intn(5) == 0 && i > 0 {
 			in = g.inbox[fmt.Sprintf("https://%s/u/p%d", hostR, i-1)] // shared inbox
 		}
@@ -729,7 +732,10 @@ func oracleC02(c *DriveCtx, res *Result) {
 		}
 		okSet := sameSet(got, want)
 		if !okSet && taskFaulted(res, t) {
-			okSet = sameSet(got, want2)
+			// an IRI reached along several paths (nested, cyclic collections) is fetched several times, at different depths; the one
+			// injected failure costs whatever hung on that one fetch: everything the strict reading (that IRI never answers) requires
+			// must be there, nothing beyond the lenient reading (every fetch answers) may be
+			okSet = sameSet(got, want2) || (subset(want, got) && subset(got, want2))
 		}
 		if !okSet {
 			s.violate("C02", "recipient-set", "deliver", fmt.Sprintf("transport got %v, model expects %v (limit %d, stored %v, fates %v, addressing %s)", sortedSet(got), want, ex.Limit, ex.Stored, res.Spec.World.Fate, canonJSON(addressing(o.stored))))
